@@ -460,4 +460,283 @@ theorem info_of_constructed_no_body_gen (T : Tables) (hT : T.OK) (C : BodyCodec 
   simp only [infoOfParse, p1, p2 .unixFds, hufd, hsa]
   rcases hsig with h0 | h0 <;> rw [h0] <;> rfl
 
+
+/-! ### Sent messages (spec side of the composition) -/
+
+/-- One message that was sent: the message object C03's constructor model built, the descriptors the caller
+attached (the out-of-band list after the constructor returned, as descriptor numbers), and the body in C01's
+terms (types, spec values, Python items; all empty for a message without signature). -/
+structure SentFd where
+  msg : Msg.Msg PyVal
+  ds : List Nat
+  ts : List Ty
+  vs : List Val
+  items : List PyVal
+
+/-- The body as the sender model of Proto/Fds.lean walks it. -/
+def SentFd.body (x : SentFd) : List BV := bvOfFields x.ds x.vs x.ts
+
+/-- The message in the vocabulary of `Consistent` / `attribution`: its bytes, its descriptors and indices as the
+sender model `callRemote` lays them out. -/
+def SentFd.toMsg (x : SentFd) : Msg := sentMsg x.msg.raw x.body
+
+/-- `x` was produced by a constructor call of C03's model under the premises of C03's `parse_marshal_c01` /
+`parse_marshal_no_body` (body codec = C01's code model): no signature (or the empty one) and no descriptors handed
+in; or a non-empty signature `renderAll ts` with a body in C01's domain and either `oobFDs=[]` (method calls: the
+descriptor arguments of the body are, in wire order, `ds`) or `oobFDs=None` (any constructor; no descriptor
+argument, `ds = []`). -/
+def SentFdOK (T : Tables) (na : Char → Bool) (maxLen fuel : Nat) (x : SentFd) : Prop :=
+  ∃ (st st' : Msg.St) (c : Call PyVal), 1 ≤ st.nextSerial ∧
+    construct T (wireCodec fuel) na maxLen st c = (st', .ok x.msg) ∧
+    (((c.signature = none ∨ c.signature = some []) ∧ (c.oob = none ∨ c.oob = some []) ∧
+        x.ds = [] ∧ x.ts = [] ∧ x.vs = [] ∧ x.items = []) ∨
+     ∃ (pv : PyVal) (bs : Bytes),
+       c.signature = some (renderAll x.ts) ∧ renderAll x.ts ≠ [] ∧ c.body = some pv ∧ allWF x.ts = true ∧
+       Code.topItems pv = .ok x.items ∧ Code.KeysOKList x.items ∧
+       Spec.encodeAll Code.genAlign (Txdbus.endianOf true) x.ts x.vs 0 = some bs ∧ depthAll x.vs ≤ fuel ∧
+       ((c.oob = some [] ∧ Code.RepFields (x.ds.map fdVal) x.vs true x.ts x.items 0 x.ds.length) ∨
+        (c.oob = none ∧ x.ds = [] ∧ ∃ lall, Code.RepFields lall x.vs false x.ts x.items 0 0)))
+
+theorem sigNoNul_of_sentFdOK {ts : List Ty} {c : Call PyVal}
+    (h : (c.signature = none ∨ c.signature = some []) ∨ c.signature = some (renderAll ts)) :
+    Msg.Main.SigNoNul c := by
+  intro sg hsg
+  rcases h with (h0 | h0) | h0 <;> rw [h0] at hsg
+  · cases hsg
+  · simp only [Option.some.injEq] at hsg; subst hsg; rfl
+  · simp only [Option.some.injEq] at hsg; subst hsg; exact Msg.render_noNul ts
+
+/-- The descriptors of the sender model's message are the descriptors attached. -/
+theorem sentFd_leaves (T : Tables) (na : Char → Bool) (maxLen fuel : Nat) (x : SentFd)
+    (h : SentFdOK T na maxLen fuel x) : fdLeavesL x.body = x.ds := by
+  obtain ⟨st, st', c, _, _, hcase⟩ := h
+  rcases hcase with ⟨_, _, hds, hts, hvs, _⟩ | ⟨pv, bs, _, _, _, _, _, _, _, _, hoob⟩
+  · simp [SentFd.body, hds, hvs, bvOfFields, fdLeavesL]
+  · rcases hoob with ⟨_, hrep⟩ | ⟨_, hds, lall, hrep⟩
+    · have := bvOfFields_of_rep x.ds x.vs true x.ts x.items 0 x.ds.length hrep
+      simpa [SentFd.body] using this
+    · have hag : ∀ i, 0 ≤ i → i < 0 → (x.ds.map fdVal)[i]? = lall[i]? := fun i _ h => absurd h (Nat.not_lt_zero i)
+      have hrep' := rep_agreeFields lall (x.ds.map fdVal) x.vs false x.ts x.items 0 0 hrep hag
+      have := bvOfFields_of_rep x.ds x.vs false x.ts x.items 0 0 hrep'
+      simpa [SentFd.body, hds] using this
+
+theorem toMsg_fds (T : Tables) (na : Char → Bool) (maxLen fuel : Nat) (x : SentFd)
+    (h : SentFdOK T na maxLen fuel x) :
+    x.toMsg.raw = x.msg.raw ∧ x.toMsg.fds = x.ds ∧ x.toMsg.idx = List.range x.ds.length := by
+  have hl := sentFd_leaves T na maxLen fuel x h
+  refine ⟨rfl, ?_, ?_⟩
+  · simp [SentFd.toMsg, sentMsg, callRemote, marshalMsg, marshalBVs_spec, hl]
+  · simp [SentFd.toMsg, sentMsg, callRemote, marshalMsg, marshalBVs_spec, hl, List.range_eq_range']
+
+/-- **Item 1 for a sent message**: what C03's `parseMessage` finds in its bytes is what the sender model of
+Proto/Fds.lean (`callRemote` on the body's `BV` abstraction) wrote: the `unix_fds` header and the indices. -/
+theorem info_of_sent (T : Tables) (hT : T.OK) (na : Char → Bool) (maxLen fuel : Nat) (x : SentFd)
+    (h : SentFdOK T na maxLen fuel x) :
+    infoOfParse T x.msg.raw = ⟨(callRemote true x.body).1.header, (callRemote true x.body).1.indices⟩ := by
+  have hl := sentFd_leaves T na maxLen fuel x h
+  have hsend : (⟨(callRemote true x.body).1.header, (callRemote true x.body).1.indices⟩ : MsgInfo) =
+      ⟨if x.ds.isEmpty then none else some x.ds.length, List.range x.ds.length⟩ := by
+    simp [callRemote, marshalMsg, marshalBVs_spec, hl, List.range_eq_range']
+  rw [hsend]
+  obtain ⟨st, st', c, hs, hc, hcase⟩ := h
+  rcases hcase with ⟨hsig, _, hds, _, _, _⟩ | ⟨pv, bs, hsig, hne, hbody, hts, hitems, _, henc, hfuel, hoob⟩
+  · rw [info_of_constructed_no_body_gen T hT (wireCodec fuel) na maxLen st st' c x.msg hs hsig hc, hds]; rfl
+  · rcases hoob with ⟨hoob, hrep⟩ | ⟨hoob, hds, lall, hrep⟩
+    · exact info_of_constructed_gen T hT na maxLen st st' c x.msg hs x.ts pv x.items x.vs x.ds bs fuel hsig hne hbody
+        hoob hts hitems hrep henc hfuel hc
+    · rw [info_of_constructed_none_gen T hT na maxLen st st' c x.msg hs x.ts pv x.items x.vs lall bs fuel hsig hne
+        hbody hoob hts hitems hrep henc hfuel hc, hds]; rfl
+
+/-- C03's layout is C04's `Spec.WellFormed` (as `WithMsg.wellFormed_of_constructed_gen` of C04's extension, from
+C03 `marshal_wellformed` and C04 `wellFormed_of_layout`; repeated here so that C20 does not depend on files
+another extension is editing). -/
+theorem wellFormed_of_sentFd (T : Tables) (hT : T.OK) (na : Char → Bool) (maxLen fuel : Nat)
+    (hmax : maxLen ≤ Msg.Spec.maxMessage) (x : SentFd) (h : SentFdOK T na maxLen fuel x) :
+    Spec.WellFormed x.msg.raw := by
+  obtain ⟨st, st', c, hs, hc, hcase⟩ := h
+  have hsig : Msg.Main.SigNoNul c := by
+    apply sigNoNul_of_sentFdOK (ts := x.ts)
+    rcases hcase with ⟨hsig, _⟩ | ⟨_, _, hsig, _⟩
+    · exact Or.inl hsig
+    · exact Or.inr hsig
+  obtain ⟨sm, _, hraw, hhdr, hpad, hfix, hal, hpl, _, hfixed, _, hbl, hal32, _⟩ :=
+    Msg.Main.marshal_wellformed T hT (wireCodec fuel) na maxLen hmax st st' c x.msg hs hsig hc
+  have hal' : (16 + (Msg.Spec.fieldArray sm).length + (Msg.Spec.headerPad sm).length) % 8 = 0 := by
+    rw [hhdr, hpad] at hal
+    simp only [List.length_append, hfix] at hal
+    exact hal
+  rw [hpad] at hpl
+  rw [hraw, hfixed]
+  exact wellFormed_of_layout _ _ x.msg.serial (Msg.Spec.fieldArray sm) (Msg.Spec.headerPad sm) x.msg.rawBody hpl hal'
+    hbl hal32
+
+/-! ### C03's parse with C01's codec on the receiver's real queue -/
+
+/-- The receiver's `parseMessage` result `r` is the message `x` that was sent: same class, serial, flags, header
+attributes (as Python values: `UInt32(5) == 5`), and the body is C01's normal form of the body that was sent
+(`Code.plainList items`: at every `h` position the very descriptor object the sender passed). -/
+def ParsedAs (x : SentFd) (r : Except PyErr (Msg.Msg PyVal)) : Prop :=
+  ∃ m', r = .ok m' ∧ m'.cls = x.msg.cls ∧ m'.serial = x.msg.serial ∧ m'.expectReply = x.msg.expectReply ∧
+    m'.autoStart = x.msg.autoStart ∧ (∀ a, m'.attrs a = Msg.plain (x.msg.attrs a)) ∧
+    m'.body = (if renderAll x.ts = [] then none else some (.list (Code.plainList x.items)))
+
+theorem queue_agree (ds rest : List Nat) :
+    ∀ i, 0 ≤ i → i < ds.length → ((ds ++ rest).map fdVal)[i]? = (ds.map fdVal)[i]? := by
+  intro i _ hi
+  rw [List.map_append, List.getElem?_append_left (by simpa using hi)]
+
+/-- `parseMessage(raw, self._receivedFDs)` (C03's model, C01's codec) on a queue that starts with the message's
+own descriptors - whatever follows them (early arrivals of later messages) - returns the message sent. -/
+theorem parsedAs_of_sent (T : Tables) (hT : T.OK) (na : Char → Bool) (maxLen fuel : Nat) (x : SentFd)
+    (h : SentFdOK T na maxLen fuel x) (rest : List Nat) :
+    ParsedAs x (parseMessage T (wireCodec fuel) x.msg.raw (some ((x.ds ++ rest).map fdVal))) := by
+  obtain ⟨st, st', c, hs, hc, hcase⟩ := h
+  rcases hcase with ⟨hsig, _, _, hts, _, _⟩ | ⟨pv, bs, hsig, hne, hbody, hts, hitems, hkeys, henc, hfuel, hoob⟩
+  · obtain ⟨m', p1, p2, p3, p4, p5, p6, p7, _⟩ :=
+      Msg.parse_marshal_no_body_gen T hT na maxLen st st' c x.msg hs fuel (some ((x.ds ++ rest).map fdVal)) hsig hc
+    exact ⟨m', p1, p2, p3, p4, p5, p6, by rw [p7, hts]; rfl⟩
+  · have key : ∀ (fdsOut : Option (List PyVal)) (fd : Bool) (lall : List PyVal) (k' : Nat),
+        Code.marshal fuel (renderAll x.ts) pv 0 true c.oob = .ok (bs.length, bs, fdsOut) →
+        Code.RepFields lall x.vs fd x.ts x.items 0 k' →
+        (∀ i, 0 ≤ i → i < k' → ((x.ds ++ rest).map fdVal)[i]? = lall[i]?) →
+        ParsedAs x (parseMessage T (wireCodec fuel) x.msg.raw (some ((x.ds ++ rest).map fdVal))) := by
+      intro fdsOut fd lall k' hm hrep hag
+      have hrep' := rep_agreeFields lall ((x.ds ++ rest).map fdVal) x.vs fd x.ts x.items 0 k' hrep hag
+      have hu := Code.unmarshal_eq_spec Code.genAlign Code.padOK_gen Code.genAlign_pos true
+        (some ((x.ds ++ rest).map fdVal)) x.ts x.vs 0 bs [] [] (Code.plainList x.items) fuel hts henc rfl
+        (Code.fromSpecFields_of_rep _ x.vs fd x.ts x.items 0 k' hrep' hkeys) hfuel
+      simp only [List.nil_append, List.append_nil] at hu
+      obtain ⟨m', p1, p2, p3, p4, p5, p6, p7, _⟩ :=
+        Msg.parse_marshal_wire_core T hT na maxLen st st' c x.msg hs (renderAll x.ts) pv bs fdsOut
+          (some ((x.ds ++ rest).map fdVal)) (Code.plainList x.items) fuel hsig hne (Msg.render_noNul x.ts) hbody hm hu hc
+      exact ⟨m', p1, p2, p3, p4, p5, p6, by rw [p7, if_neg hne]⟩
+    rcases hoob with ⟨hoob, hrep⟩ | ⟨hoob, _, lall, hrep⟩
+    · have hm : Code.marshal fuel (renderAll x.ts) pv 0 true c.oob = .ok (bs.length, bs, some (x.ds.map fdVal)) := by
+        have h' := Code.marshal_eq_spec Code.genAlign Code.padOK_gen Code.genAlign_pos true x.ts pv x.items x.vs
+          (x.ds.map fdVal) x.ds.length 0 bs fuel hitems hrep henc hfuel
+        rw [hoob, h', List.take_of_length_le (by simp)]
+      exact key _ true _ _ hm hrep (queue_agree x.ds rest)
+    · have hm : Code.marshal fuel (renderAll x.ts) pv 0 true c.oob = .ok (bs.length, bs, none) := by
+        rw [hoob]
+        exact Msg.marshal_eq_spec_none true x.ts pv x.items x.vs lall 0 0 0 bs fuel hitems hrep henc hfuel
+      exact key _ false _ _ hm hrep (fun i _ h => absurd h (Nat.not_lt_zero i))
+
+
+/-- `ds` are the deliveries of the first messages of `xs`, in order: each carries the bytes of its message;
+every `h` argument resolved to the descriptor attached to THIS message at that position (`args`); the queue at
+that moment was the message's own descriptors followed by early arrivals of later messages, and exactly the
+message's own descriptors were removed; and C03's `parseMessage` with C01's codec, run on that very queue
+(`parsedDelivery` - the code's call), returns the message that was sent, the descriptors in its body. -/
+def ParsedFrom (T : Tables) (fuel : Nat) : List SentFd → List Delivery → Prop
+  | _, [] => True
+  | [], _ :: _ => False
+  | x :: t, d :: ds =>
+    d.raw = x.msg.raw ∧ d.args = x.ds.map some ∧
+    (∃ early, d.queueBefore = x.ds ++ early ∧ d.queueAfter = early ∧ early <+: (t.map (·.ds)).flatten) ∧
+    ParsedAs x (parsedDelivery T fuel d) ∧
+    ParsedFrom T fuel t ds
+
+theorem parsedFrom_of_goodFrom (T : Tables) (hT : T.OK) (na : Char → Bool) (maxLen fuel : Nat) :
+    ∀ (xs : List SentFd) (ds : List Delivery), (∀ x ∈ xs, SentFdOK T na maxLen fuel x) →
+      GoodFrom (xs.map SentFd.toMsg) ds → ParsedFrom T fuel xs ds
+  | _, [], _, _ => by simp [ParsedFrom]
+  | [], _ :: _, _, h => by simp [GoodFrom] at h
+  | x :: t, d :: ds, hx, h => by
+    simp only [List.map_cons, GoodFrom] at h
+    obtain ⟨h1, h2, ⟨early, h3, h4, h5⟩, h6⟩ := h
+    obtain ⟨e1, e2, e3⟩ := toMsg_fds T na maxLen fuel x (hx x (by simp))
+    have hfl : (t.map SentFd.toMsg).map Msg.fds = t.map (·.ds) := by
+      rw [List.map_map]
+      apply List.map_congr_left
+      intro y hy
+      exact (toMsg_fds T na maxLen fuel y (hx y (by simp [hy]))).2.1
+    refine ⟨by rw [h1, e1], ?_, ⟨early, by rw [h3, e2], h4, by rw [← hfl]; exact h5⟩, ?_,
+      parsedFrom_of_goodFrom T hT na maxLen fuel t ds (fun y hy => hx y (by simp [hy])) h6⟩
+    · rw [h2, e2, e3]
+      apply List.ext_getElem?
+      intro i
+      simp only [List.getElem?_map]
+      by_cases hi : i < x.ds.length
+      · simp [hi]
+      · simp [hi]
+    · have := parsedAs_of_sent T hT na maxLen fuel x (hx x (by simp)) early
+      simp only [parsedDelivery, h1, e1, h3, e2]
+      exact this
+
+/-- In terms of the descriptors alone. -/
+theorem parsedFrom_args (T : Tables) (fuel : Nat) :
+    ∀ (xs : List SentFd) (ds : List Delivery), ParsedFrom T fuel xs ds →
+      ds.map (fun d => (d.raw, d.args)) = (xs.take ds.length).map (fun x => (x.msg.raw, x.ds.map some))
+  | _, [], _ => by simp
+  | [], _ :: _, h => by simp [ParsedFrom] at h
+  | x :: t, d :: ds, h => by
+    simp only [ParsedFrom] at h
+    simp only [List.map_cons, List.length_cons, List.take_succ_cons, h.1, h.2.1,
+      parsedFrom_args T fuel t ds h.2.2.2.2]
+
+/-! ### Everything that was sent has arrived -/
+
+theorem hasFrame_of_wellFormed_append (m rest : Bytes) (h : Spec.WellFormed m) : Spec.hasFrame (m ++ rest) := by
+  refine ⟨by simp only [List.length_append]; have := h.1; omega, ?_⟩
+  rw [msgLen_append m rest h.1, h.2]
+  simp
+
+/-- When all bytes have arrived (`bytesOf evs` = the bytes of all messages) and the buffer holds no complete
+message, every message has been delivered and nothing is buffered. -/
+theorem all_delivered (ms : List Msg) (hwf : ∀ m ∈ ms, Spec.WellFormed m.raw) (n : Nat) (hn : n ≤ ms.length)
+    (buf : Bytes) (hb : bytesUpTo ms ms.length = bytesUpTo ms n ++ buf) (hnf : ¬ Spec.hasFrame buf) :
+    n = ms.length ∧ buf = [] := by
+  rw [bytesUpTo_all ms n] at hb
+  have hbuf : buf = ((ms.drop n).map Msg.raw).flatten := (List.append_cancel_left hb).symm
+  cases hd : ms.drop n with
+  | nil =>
+    rw [hd] at hbuf
+    have : ms.length ≤ n := by
+      have := congrArg List.length hd
+      simp at this; omega
+    exact ⟨by omega, by simpa using hbuf⟩
+  | cons m t =>
+    exfalso
+    rw [hd] at hbuf
+    apply hnf
+    rw [hbuf]
+    simp only [List.map_cons, List.flatten_cons]
+    apply hasFrame_of_wellFormed_append
+    exact hwf m (List.mem_of_mem_drop (by rw [hd]; simp))
+
+
+/-! ### Sender side; helpers for the instances in Properties/C20.lean -/
+
+theorem mapM_fdNat (ds : List Nat) : (ds.map fdVal).mapM fdNat? = some ds := by
+  induction ds with
+  | nil => rfl
+  | cons d t ih =>
+    simp only [List.map_cons, List.mapM_cons, ih]
+    simp [fdVal, fdNat?]
+
+/-- the sender's own transport calls as receiver events -/
+def senderEvs (xs : List SentFd) : List Ev :=
+  (xs.map (fun x => (callRemote true x.body).2.map (toEv x.msg.raw))).flatten
+
+theorem construct_shape20 {T : Tables} {C : BodyCodec PyVal} {na : Char → Bool} {maxLen : Nat} {st : Msg.St}
+    {c : Call PyVal} (hok : (construct T C na maxLen st c).2.toOption.isSome = true) :
+    ∃ st' m, construct T C na maxLen st c = (st', .ok m) := by
+  cases hr : construct T C na maxLen st c with
+  | mk st' r =>
+    cases r with
+    | error e => rw [hr] at hok; cases hok
+    | ok m => exact ⟨st', m, rfl⟩
+
+/-- `RepFields` for the body `[7, 7]` of signature `hh` (the instance in Properties/C20.lean). -/
+theorem exFd_rep : Code.RepFields ([7, 7].map fdVal) [.int 0, .int 1] true [.basic .h, .basic .h]
+    [.int .plain 7, .int .plain 7] 0 2 := by
+  refine ⟨_, _, _, _, 1, rfl, rfl, ?_, _, _, _, _, 2, rfl, rfl, ?_, ⟨rfl, rfl, rfl⟩⟩
+  · simp only [Code.Rep]
+    exact ⟨.h, rfl, Or.inl ⟨rfl, rfl, rfl, rfl, rfl, rfl⟩⟩
+  · simp only [Code.Rep]
+    exact ⟨.h, rfl, Or.inl ⟨rfl, rfl, rfl, rfl, rfl, rfl⟩⟩
+
+/-- An authenticator for the instances (never consulted in binary mode). -/
+def idleAuth : Auth Unit := ⟨fun _ _ => ((), .cont)⟩
+
 end Txdbus.Proto
